@@ -12,11 +12,12 @@ from .loader import Module, dotted
 
 
 class ClassWorld:
-    def __init__(self, modules: List[Module], extra_funcs: Optional[Dict[str, Any]] = None):
+    def __init__(self, modules: List[Module], extra_funcs: Optional[Dict[str, Any]] = None,
+                 pre_env: Optional[Dict[str, Any]] = None):
         self.modules = modules
         self.ev = fde.Evaluator(extra_funcs)
         self.ev.funcs["__super__"] = self._super
-        self.genv: Dict[str, Any] = {}
+        self.genv: Dict[str, Any] = dict(pre_env or {})
         self.classes: Dict[str, ast.ClassDef] = {}
         self.class_mod: Dict[str, Module] = {}
         for m in modules:
@@ -28,8 +29,8 @@ class ClassWorld:
             for st in m.tree.body:
                 if isinstance(st, ast.Assign):
                     for t in st.targets:
-                        if isinstance(t, ast.Name):
-                            self.genv.setdefault(t.id, Tag(t.id))
+                        if isinstance(t, ast.Name) and t.id not in self.genv:
+                            self.genv[t.id] = Tag(t.id)
             for q, f in m.funcs.items():
                 if "." not in q:
                     self.genv[q] = FunctionValue(f, self.ev, self.genv)
@@ -43,7 +44,8 @@ class ClassWorld:
             for st in m.tree.body:
                 if isinstance(st, (ast.Assign, ast.AnnAssign)) and getattr(st, "value", None) is not None:
                     tgts = st.targets if isinstance(st, ast.Assign) else [st.target]
-                    if not isinstance(st.value, (ast.Dict, ast.List, ast.Tuple, ast.Constant, ast.BinOp, ast.Set)):
+                    if not isinstance(st.value, (ast.Dict, ast.List, ast.Tuple, ast.Constant, ast.BinOp, ast.Set,
+                                                 ast.Attribute, ast.Name, ast.UnaryOp, ast.BoolOp, ast.Compare)):
                         continue
                     try:
                         v = self.ev.eval(st.value, self.genv)
